@@ -3,7 +3,7 @@
  *   HDW_SHIM_SCRIPT  file; line k (0-based) decides request k: "fail" -> return -1 (errno EIO),
  *                    otherwise hex bytes, repeated cyclically to the requested length.
  *                    Requests beyond the last line follow HDW_SHIM_DEFAULT.
- *   HDW_SHIM_DEFAULT "counter" (default): byte i of request k is (k*131 + i*17 + 7) mod 256;
+ *   HDW_SHIM_DEFAULT "counter" (default): byte i of request k comes from a 64-bit LCG seeded by k (see below);
  *                    "fail": return -1;  "real": call the real getentropy.
  *   HDW_SHIM_LOG     file; one line "k len" appended per request (O_APPEND, one write each).
  *
@@ -84,6 +84,13 @@ int getentropy(void *buffer, size_t len) {
         errno = ENOSYS;
         return -1;
     }
-    for (size_t i = 0; i < len; i++) out[i] = (unsigned char)((k * 131 + (long)i * 17 + 7) & 0xff);
+    /* "counter": a long-period pattern that the checks can recompute: a 64-bit LCG step per byte, seeded by the request number */
+    {
+        unsigned long long x = 0x9E3779B97F4A7C15ULL * (unsigned long long)(k + 1) + 0x1234567ULL;
+        for (size_t i = 0; i < len; i++) {
+            x = x * 6364136223846793005ULL + 1442695040888963407ULL;
+            out[i] = (unsigned char)(x >> 56);
+        }
+    }
     return 0;
 }
